@@ -276,8 +276,10 @@ func run(idx int, line []byte) vh.CaseResult {
 				}
 				finish()
 				det["parked"] = parked
-				if parked && conflictedRenewal[s.O] {
-					return fail("sm1:seq Release after a conflicted lease renewal writes the uncommitted lease back", det)
+				if conflictedRenewal[s.O] {
+					// stored == seq.leased is evaluated with the lease of the failed renewal: the loser's
+					// next is written over the winner's lease, or a due write-back is skipped
+					return fail("sm1:seq Release after a conflicted lease renewal uses the uncommitted lease", det)
 				}
 				return fail("sm1:seq Release transaction writes="+fmt.Sprint(parked)+" want="+s.Res, det)
 			}
